@@ -1,4 +1,4 @@
-import Kolibrie.Lemmas.Implement
+import Kolibrie.Lemmas.LowerSound
 /-!
 # C02 — query answers do not depend on the plan the optimizer happens to choose
 
@@ -26,15 +26,17 @@ Proved here, for **all** databases, contexts, plans and solution sequences:
   of a safe logical plan, the physical plan returns the same multiset** (`optimizer_choice_irrelevant`) — the cost
   model and the statistics are an arbitrary oracle `algs`.
 
-/- FULL (checked by the correspondence run against the algebra on generated inputs; not yet proved):
-   theorem optimizer_sound : wellScoped [] pat = true →
-       ∀ algs, exec db (implement algs (lower .dflt pat)).1 ctx [[]] ~ sem db ctx pat
-   Proved so far: independence from `algs` (this file) on `safeL` plans.  Missing: (i) the induction relating the
-   lowering (`lower`/`lowerGroup`) of the reference plan `implNl` to the algebra (`sem`/`semGroup`) — scans carry the
-   graph scope while the algebra uses the active graph; (ii) BIND (needs freshness of the target among incoming
-   variables; excluded from `safeL`); (iii) sub-selects with inner joins (`finalize_subquery` is not
-   permutation-invariant: LIMIT / first-row-of-group); (iv) greedy scan reordering and the star rewrite of
-   `reorder_logical`/`is_star_query` are covered by `join_order_irrelevant`/`star_is_scan_chain` only pairwise. -/
+* **`optimizer_sound`**: for every group pattern of the fragment `okPat` (BGPs, nested groups whose FILTERs only
+  mention variables the group certainly binds, UNION, GRAPH <iri> / GRAPH ?g, VALUES with UNDEF), every database, every
+  well-formed dataset view and **every** join-algorithm oracle, the physical plan obtained from the real lowering
+  computes exactly the multiset the SPARQL algebra assigns to the pattern.
+
+/- FULL: the same statement for the whole supported fragment (`wellScoped [] pat`).  Not proved for: BIND (needs
+   freshness of the target among incoming variables), sub-selects (`finalize_subquery` is not permutation-invariant:
+   LIMIT / first-row-of-group, so the statement there must be "a legal answer"), and the optimizer's scan reordering
+   and star rewrite inside one BGP (`reorder_logical`, `is_star_query`), which are covered pairwise by
+   `join_order_irrelevant` / `star_is_scan_chain`.  The correspondence run checks all of these against the algebra
+   on generated inputs. -/
 -/
 namespace Kolibrie.Props.C02
 open Kolibrie.Engine List
@@ -125,7 +127,17 @@ theorem optimizer_choice_irrelevant (db : DB) (L : Logical) (h : safeL L = true)
     exec db (implement a L).1 ctx [[]] ~ exec db (implNl L) ctx [[]] :=
   ⟨implement_any_two db L h a b ctx hc, implement_irrelevant db L h a ctx hc⟩
 
+/-- **Whatever plan the optimizer builds, the answer is the algebra's** (fragment `okPat`): the cost model, the
+    statistics and the join algorithms are the arbitrary oracle `algs` -/
+theorem optimizer_sound (db : DB) (p : Pat) (h : okPat p = true) (algs : List JoinAlg) (ctx : Ctx) (hc : ctx.WF) :
+    exec db (implement algs (lower .dflt p)).1 ctx [[]] ~ sem db ctx p :=
+  plans_compute_algebra db p h algs ctx hc
+
 /-! non-vacuity -/
+example : okPat (.group [.bgp [(.var 0, .const "p", .var 1), (.var 1, .const "q", .var 2)],
+    .union [.group [.bgp [(.var 0, .const "r", .var 3)]], .group [.graph (.var 4) (.bgp [(.var 0, .const "r", .var 3)])]],
+    .graph (.named "g") (.group [.values [5] [[some "a"], [none]], .bgp [(.var 5, .var 6, .var 0)]]),
+    .filter (.and (.cmp 1 ">" (.const "3")) (.not (.cmp 0 "=" (.var 2))))]) = true := by decide
 example : safeL (lower .dflt (.group [.bgp [(.var 0, .const "p", .var 1), (.var 1, .const "q", .var 2)],
     .union [.group [.bgp [(.var 0, .const "r", .var 3)]], .group [.graph (.var 4) (.bgp [(.var 0, .const "r", .var 3)])]],
     .filter (.and (.cmp 1 ">" (.const "3")) (.not (.cmp 0 "=" (.var 2))))])) = true := by decide
